@@ -537,6 +537,63 @@ def resolve_wiring(ctx, facts):
         ctx.finding('C18:RESOLVE', 'C18 resolve wiring', facts.bodies[RES]['span'], f'Offset::resolve: {why}')
 
 
+def decoding(ctx, facts):
+    """transition times and UTC offsets are decoded as signed big-endian integers (RFC 8536), version 1 times sign-extended"""
+    from ..entries import install_splitter_contract, install_tz_partitions, install_cursor_contracts
+    FT = 'local::timezone::TimeZone::from_tzif'
+    if not ctx.anchor(facts.bodies, FT, 'C18 decoding'):
+        return
+    N = Numeric(ctx, 'default', max_disj=64, max_steps=400_000)
+    I = N.I
+    for f in (install_splitter_contract, install_tz_partitions, install_cursor_contracts):
+        f(I)
+    made = {}
+
+    def wrap(tn):
+        name = f'core::num::<impl {tn}>::from_be_bytes'
+        m = I.find_model(name)
+
+        def w(I_, st, args, dty, site):
+            outs = m(I_, st, args, dty, site) if m else None
+            if outs is None:
+                s2 = st.clone()
+                outs = [(s2, I_.top(s2, dty, 'be'))]
+            for s2, v in outs:
+                if v[0] == 'i':
+                    made[v[1]] = tn
+            return outs
+        I.models[name] = w
+    for tn in ('i32', 'i64', 'u32', 'u64', 'u16', 'i16'):
+        wrap(tn)
+    seen = {'t': [], 'l': []}
+
+    def c_tr(I_, st, args, dty, site):
+        seen['t'].append(made.get(args[0][1]) if args[0][0] == 'i' else None)
+        s2 = st.clone()
+        return [(s2, ('s', TRANSITION, (args[0], args[1]), None))]
+
+    def c_ltt(I_, st, args, dty, site):
+        seen['l'].append(made.get(args[0][1]) if args[0][0] == 'i' else None)
+        s2 = st.clone()
+        return [(s2, ('s', LTT, (args[0], args[1]), None))]
+    I.contracts['local::timezone::Transition::new'] = c_tr
+    I.contracts['local::timezone::LocalTimeType::new'] = c_ltt
+
+    def footer(I_, st, args, dty, site):
+        s1, s2 = st.clone(), st.clone()
+        return [(s1, ok(I_.top(s1, dty['args'][0], 'rule'))), (s2, err(I_.top(s2, dty['args'][1], 'e')))]
+    I.contracts['local::transition_rule::TransitionRule::from_tz_string'] = footer
+    N.run(FT, variants=('fixed',))
+    tt, lt = set(seen['t']), set(seen['l'])
+    good = bool(tt) and tt <= {'i32', 'i64'} and {'i32', 'i64'} <= tt and lt == {'i32'}
+    ctx.rule('C18 transition times (4 or 8 bytes) and UTC offsets are decoded as signed big-endian integers', 1, 1 if good else 0,
+             sample={'transition time decoders': sorted(map(str, tt)), 'utoff decoders': sorted(map(str, lt))})
+    if not good:
+        ctx.finding('C18:DECODE', 'C18 decoding', facts.bodies[FT]['span'],
+                    f'from_tzif: transition times must come from i32::from_be_bytes (version 1, sign-extended) / i64::from_be_bytes and offsets from i32::from_be_bytes; '
+                    f'seen {sorted(map(str, tt))} and {sorted(map(str, lt))}')
+
+
 def check(ctx):
     N0 = Numeric(ctx)
     facts = N0.facts
@@ -548,5 +605,6 @@ def check(ctx):
     rule_days(ctx, facts)
     leap_shift(ctx, facts)
     resolve_wiring(ctx, facts)
+    decoding(ctx, facts)
     ctx.cov['entries'] += [LOOKUP, RULE_EVAL, RULE_TS]
     ctx.cov['trusted_base'] += ['rustc MIR of the dev profile', 'vf/models.py']
